@@ -61,6 +61,7 @@ type Prog struct {
 	db     *SpecDB
 	repo   string
 	tags   string
+	namePrefix string // prefix of obligation names for alternative tag sets
 
 	typeTags   map[string]int
 	tagTypes   []types.Type
